@@ -37,8 +37,8 @@ macro "ends_finish" : tactic =>
 section rk4
 open Gen.Rk4
 /-- Kv 0 = f(xold,yold) (left slope, kept in `k2`), Kv 1..3 = stages 2..4, Kv 4 = f(x+h, y_new) -/
-theorem rk4_dense_weights {n : Nat} (y Ka Kb Kc Kd Ke : Vector K n) (xold h θ : K) (hh : h ≠ 0) (last : Bool) (xend : K) :
-    let ynew := (update (f := fun _ _ _ => Ke) (last := last) (xend := xend) (h := h) (x := xold) (k1 := Ka) (k2 := Kb) (k3 := Kc) (k4 := Kd) (y := y)).y
+theorem rk4_dense_weights {n : Nat} (y Ka Kb Kc Kd Ke : Vector K n) (xold h θ : K) (hh : h ≠ 0) (xph : K) :
+    let ynew := (update (f := fun _ _ _ => Ke) (xph := xph) (h := h) (k1 := Ka) (k2 := Kb) (k3 := Kc) (k4 := Kd) (y := y)).y
     let d := dense (yt := y) (k2 := Ka) (k1 := Ke) (y := ynew)
     interpolate (xi := xold + θ * h) (xold := xold) (h := h) (cont0 := d.cont0) (cont1 := d.cont1) (cont2 := d.cont2) (cont3 := d.cont3)
       = denseVal rk4Dense 5 h θ y (fun l => if l = 0 then Ka else if l = 1 then Kb else if l = 2 then Kc else if l = 3 then Kd else Ke) := by
